@@ -207,15 +207,16 @@ PROPS["C13"] = {
 PROPS["C17"] = {
     "level": "fault_enumeration",
     "technique": "model-based stateful PBT (rapid) against an executable version of the SimpleNFS specification with boundary-dense inode numbers, offsets and counts; porcupine linearizability oracle per file over generated concurrent programs; crash-point x lost-write enumeration with a prefix oracle, recovered through both entry points",
-    "level_text": "Specification model: 30 files (inode 2..31) of <= 4096 bytes. Sequential state machine over GETATTR/SETATTR/READ/WRITE/LOOKUP/COMMIT and the twelve unsupported procedures with inode numbers {0,1,2,3,4,31,32,33,2^32,2^63,2^64-1}, offsets and sizes over 0..2^64-1 (dense at 0, the current size, 4095..4097, 2^31, 2^32, 2^63, 2^64-k) and counts incl. mismatches with the data length; every reply is compared with the specification (rejection of holes, mismatches and anything beyond 4096 bytes without effect; exact bytes; eof exactly when the read reaches the size; allocation bound for hostile sizes), full read-back after every step, restarts through both simple.Recover and simple.MakeNfs. Concurrent clients on the same two files are checked with porcupine partitioned per file; in 2/3 of the programs one client is held at one of its first eight device accesses (before the access or after the data is fetched: a slow device) until the others have finished, and half of the programs are focused (client 0 only reads file 2, whose contents were installed beforehand, while the others rewrite and truncate it). Crash: every explored crash point x loss variant of generated programs is recovered with both entry points and must equal the state after a prefix containing every acknowledged request.",
+    "level_text": "Specification model: 30 files (inode 2..31) of <= 4096 bytes. Sequential state machine over GETATTR/SETATTR/READ/WRITE/LOOKUP/COMMIT and the twelve unsupported procedures with inode numbers {0,1,2,3,4,31,32,33,2^32,2^63,2^64-1}, offsets and sizes over 0..2^64-1 (dense at 0, the current size, 4095..4097, 2^31, 2^32, 2^63, 2^64-k) and counts incl. mismatches with the data length; every reply is compared with the specification (rejection of holes, mismatches and anything beyond 4096 bytes without effect; exact bytes; eof exactly when the read reaches the size; allocation bound for hostile sizes), full read-back after every step, restarts through both simple.Recover and simple.MakeNfs. A concurrent crash unit (one writer per file with strictly growing sizes, 1-3 readers per file, a device whose writes take 0-300 us) recovers the device image of the moment a GETATTR/READ reply arrived and requires the version the reply showed, or a later one. Concurrent clients on the same two files are checked with porcupine partitioned per file; in 2/3 of the programs one client is held at one of its first eight device accesses (before the access or after the data is fetched: a slow device) until the others have finished, and half of the programs are focused (client 0 only reads file 2, whose contents were installed beforehand, while the others rewrite and truncate it). Crash: every explored crash point x loss variant of generated programs is recovered with both entry points and must equal the state after a prefix containing every acknowledged request.",
     "level_note": "Sampled programs and schedules; crash points enumerated per trace (quick <=300, thorough all). Runs in child processes: a fatal runtime error (e.g. out of memory) is reported as a violation.",
     "rule": ("unit = one sequence / concurrent program / crash image. Non-trivial: sequence with >=1 successful mutation and >=1 rejected WRITE/SETATTR on a valid file; concurrent program in which operations of different clients overlap in time; crash image with a request in flight or lost writes. distinct = FNV hash of the history resp. (program, crash point, variant)."),
     "assumptions": COMMON_ASSUMPTIONS,
-    "required_classes": ["conc_with_a_client_held_at_a_disk_access", "seq_with_rejected_write_or_setattr", "seq_with_restart", "conc_with_overlap", "crash_images"],
+    "required_classes": ["read_replies_verified_in_a_crash_image", "conc_with_a_client_held_at_a_disk_access", "seq_with_rejected_write_or_setattr", "seq_with_restart", "conc_with_overlap", "crash_images"],
     "units": [
         {"test": "^TestRegressC17$", "norapid": True, "quick": {"shards": 1}, "thorough": {"shards": 1}},
         {"test": "^TestC17Seq$", "oom_is_violation": True, "quick": {"checks": 60, "shards": 8}, "thorough": {"checks": 1500, "shards": 12}},
         {"test": "^TestC17Conc$", "quick": {"checks": 100, "shards": 4}, "thorough": {"checks": 2500, "shards": 8}},
+        {"test": "^TestC17ConcCrash$", "quick": {"checks": 30, "shards": 4}, "thorough": {"checks": 800, "shards": 8}},
         {"test": "^TestC17Crash$", "quick": {"checks": 8, "shards": 2, "procs": 4}, "thorough": {"checks": 150, "shards": 4, "procs": 4, "timeout": 7200}},
     ],
 }
